@@ -177,6 +177,17 @@ type probe struct {
 	ihl     int
 }
 
+// tags: number of VLAN tags of the probe frame (by name suffix): -vlan = one 802.1Q tag, -qinq = 802.1ad outer + 802.1Q inner
+func (p probe) tags() int {
+	switch {
+	case strings.HasSuffix(p.name, "-qinq"):
+		return 2
+	case strings.HasSuffix(p.name, "-vlan"):
+		return 1
+	}
+	return 0
+}
+
 func probes(thorough bool) []probe {
 	var ps []probe
 	for _, lay := range []string{"53first", "lib"} {
@@ -195,6 +206,11 @@ func probes(thorough bool) []probe {
 	for n := 40; n <= 70; n++ {
 		ps = append(ps, probe{fmt.Sprintf("DISCOVER-opts%d", n), dhcpv4.MessageTypeDiscover, "", "", false, false, "53first", n, 5})
 	}
+	// tagged access: the MAC-keyed cache entry answers 802.1Q and QinQ frames too; the reply keeps the tags
+	ps = append(ps, probe{"DISCOVER-vlan", dhcpv4.MessageTypeDiscover, "", "", false, false, "53first", 80, 5},
+		probe{"DISCOVER-qinq", dhcpv4.MessageTypeDiscover, "", "", false, false, "53first", 80, 5},
+		probe{"REQUEST-selecting-own-vlan", dhcpv4.MessageTypeRequest, "own", "ours", false, false, "lib", 80, 5},
+		probe{"REQUEST-selecting-own-qinq", dhcpv4.MessageTypeRequest, "own", "ours", false, false, "53first", 80, 5})
 	ps = append(ps, probe{"DISCOVER-ihl6", dhcpv4.MessageTypeDiscover, "", "", false, false, "53first", 80, 6},
 		probe{"REQUEST-ihl6", dhcpv4.MessageTypeRequest, "own", "ours", false, false, "53first", 80, 6})
 	if thorough {
@@ -280,7 +296,7 @@ func dhcpPayload(w *world, c client, p probe) []byte {
 	return append(b, opts...)
 }
 
-func frame(c client, payload []byte, ihl int) []byte {
+func frame(c client, payload []byte, ihl int, tags ...int) []byte {
 	f := append([]byte{}, 0xff, 0xff, 0xff, 0xff, 0xff, 0xff)
 	src := c.mac
 	sip, dip := net.IPv4zero.To4(), net.IPv4bcast.To4()
@@ -290,6 +306,11 @@ func frame(c client, payload []byte, ihl int) []byte {
 		dip = net.IPv4(10, 1, 1, 1).To4()
 	}
 	f = append(f, src...)
+	if len(tags) > 0 && tags[0] == 2 {
+		f = append(f, 0x88, 0xa8, 0x00, 100, 0x81, 0x00, 0x00, 10)
+	} else if len(tags) > 0 && tags[0] == 1 {
+		f = append(f, 0x81, 0x00, 0x00, 100)
+	}
 	f = append(f, 0x08, 0x00)
 	ip := make([]byte, ihl*4)
 	ip[0] = 0x40 | byte(ihl)
@@ -427,7 +448,7 @@ func (e *env) evalState(h hist, ps []probe) {
 			}
 			for _, p := range ps {
 				pl := dhcpPayload(w, c, p)
-				in := frame(c, pl, p.ihl)
+				in := frame(c, pl, p.ihl, p.tags())
 				verdict, out, err := e.k.Run("dhcp_fastpath_prog", in)
 				e.evals++
 				if err != nil {
@@ -515,6 +536,29 @@ func (e *env) headerSweep() {
 		for _, fo := range []uint16{0x4000, 0x2000, 0x1fff, 0xffff} {
 			try(func(ip []byte) { binary.BigEndian.PutUint16(ip[6:], fo); binary.BigEndian.PutUint16(ip[4:], 0xfffe) }, fmt.Sprintf("ip.frag_off=%#04x", fo))
 		}
+		// message-type sweep: every value of option 53 x {untagged, 802.1Q, QinQ} for a cached subscriber: the fast path
+		// replies to DISCOVER and REQUEST only ("OFFER for DISCOVER and ACK for REQUEST"); anything else goes to
+		// userspace untouched
+		for tags, suffix := range []string{"", "-vlan", "-qinq"} {
+			for mt := 0; mt < 256; mt++ {
+				pp := p
+				pp.mtype, pp.name = dhcpv4.MessageType(mt), fmt.Sprintf("TYPE-%d%s", mt, suffix)
+				f := frame(c, dhcpPayload(w, c, pp), 5, tags)
+				verdict, out, err := e.k.Run("dhcp_fastpath_prog", f)
+				e.evals++
+				if err != nil {
+					continue
+				}
+				if verdict == nativebpf.XDP_TX {
+					e.tx++
+					if mt != int(dhcpv4.MessageTypeDiscover) && mt != int(dhcpv4.MessageTypeRequest) {
+						e.viol("answers-non-request", "dhcp_fastpath_prog", fmt.Sprintf("probe=%s: a frame with DHCP message type %d was answered from the cache; only DISCOVER and REQUEST are", pp.name, mt), h, c, pp)
+					}
+				} else if !bytes.Equal(f, out) {
+					e.viol("pass-modified", "dhcp_fastpath_prog", fmt.Sprintf("probe=%s verdict %d but the frame handed on differs from the frame received", pp.name, verdict), h, c, pp)
+				}
+			}
+		}
 	})
 }
 
@@ -543,18 +587,23 @@ func (e *env) checkReply(h hist, w *world, c client, p probe, payload, in, out [
 	bad := func(kind, site, f string, a ...any) {
 		e.viol(kind, site, "probe="+p.name+": "+fmt.Sprintf(f, a...), h, c, p)
 	}
-	ihl := int(in[14]&0xf) * 4
-	if len(out) < 14+ihl+8+240+4 {
+	l2 := 14 + 4*p.tags()
+	ihl := int(in[l2]&0xf) * 4
+	if len(out) < l2+ihl+8+240+4 {
 		bad("malformed-reply", "length", "reply is %d bytes", len(out))
 		return
 	}
-	ip := out[14 : 14+ihl]
+	if !bytes.Equal(out[12:l2], in[12:l2]) {
+		bad("malformed-reply", "vlan-tags", "the reply's VLAN tags %x differ from the request's %x", out[12:l2], in[12:l2])
+		return
+	}
+	ip := out[l2 : l2+ihl]
 	// well-formedness
 	if !bytes.Equal(out[6:12], srvMAC) {
 		bad("malformed-reply", "eth-src", "Ethernet source %x, server MAC %x", out[6:12], []byte(srvMAC))
 	}
-	if out[12] != 0x08 || out[13] != 0x00 {
-		bad("malformed-reply", "ethertype", "ethertype %x", out[12:14])
+	if out[l2-2] != 0x08 || out[l2-1] != 0x00 {
+		bad("malformed-reply", "ethertype", "ethertype %x", out[l2-2:l2])
 	}
 	if int(ip[0]&0xf)*4 != ihl {
 		bad("malformed-reply", "ihl", "IHL changed")
@@ -562,12 +611,12 @@ func (e *env) checkReply(h hist, w *world, c client, p probe, payload, in, out [
 	if got, want := binary.BigEndian.Uint16(ip[10:]), ipsum(ip); got != want {
 		bad("malformed-reply", "ip-checksum", "IP header checksum %04x, correct value over the %d-byte header %04x", got, ihl, want)
 	}
-	if tl := int(binary.BigEndian.Uint16(ip[2:])); tl != len(out)-14 {
-		bad("malformed-reply", "ip-tot-len", "ip.tot_len=%d, frame carries %d bytes after Ethernet", tl, len(out)-14)
+	if tl := int(binary.BigEndian.Uint16(ip[2:])); tl != len(out)-l2 {
+		bad("malformed-reply", "ip-tot-len", "ip.tot_len=%d, frame carries %d bytes after the %d-byte Ethernet/VLAN header", tl, len(out)-l2, l2)
 	}
-	udp := out[14+ihl:]
-	if ul := int(binary.BigEndian.Uint16(udp[4:])); ul != len(out)-14-ihl {
-		bad("malformed-reply", "udp-len", "udp.len=%d, frame carries %d bytes after the IP header", ul, len(out)-14-ihl)
+	udp := out[l2+ihl:]
+	if ul := int(binary.BigEndian.Uint16(udp[4:])); ul != len(out)-l2-ihl {
+		bad("malformed-reply", "udp-len", "udp.len=%d, frame carries %d bytes after the IP header", ul, len(out)-l2-ihl)
 	}
 	wantDport := uint16(68)
 	if c.giaddr != nil {
@@ -694,6 +743,13 @@ func TestCheck(t *testing.T) {
 		fin()
 	}
 	defer k.Close()
+	if *report.FlagReplay != "" {
+		if v, err := report.LoadReplay(*report.FlagReplay); err == nil && strings.HasPrefix(v.Part, "sched:") {
+			rc := replaySched(run, k, v)
+			os.RemoveAll(dir)
+			os.Exit(rc)
+		}
+	}
 	depth := 3
 	cfgs := []config{
 		{"/24 1dns lease10m serverid=gw", "10.1.1.0/24", "10.1.1.1", "", []string{"8.8.8.8"}, 10 * time.Minute},
@@ -733,6 +789,7 @@ func TestCheck(t *testing.T) {
 			States: e.states, Transitions: e.evals, Outcomes: e.tx, Exhaustive: true, Note: fmt.Sprintf("%d fast-path replies compared with the userspace server", e.tx)})
 		run.AddEvals(e.evals, e.tx)
 	}
+	runSched(run, k)
 	run.Sample(map[string]any{"history": []string{"D:m1", "R:m1", "D:m2"}, "probes": func() []string {
 		var n []string
 		for _, p := range ps {
